@@ -285,3 +285,144 @@ pub fn table_diff(a: &Table, b: &Table) -> String {
     }
     format!("{n} row differences ({} vs {} rows):{msg}", a.rows.len(), b.rows.len())
 }
+
+/// in-memory array from a symbol table (public API only)
+pub fn make_array<IntT>(t: &Table, k: usize, rc: bool, insertion_rev: bool) -> Result<ska::merge_ska_array::MergeSkaArray<IntT>, String>
+where
+    IntT: for<'a> ska::ska_dict::bit_encoding::UInt<'a> + TryFrom<u128>,
+{
+    use ska::merge_ska_array::MergeSkaArray;
+    use ska::merge_ska_dict::MergeSkaDict;
+    let mut names = t.names.clone();
+    let mut hm: hashbrown::HashMap<IntT, Vec<u8>> = hashbrown::HashMap::new();
+    let mut rows: Vec<(&Vec<u8>, &Vec<u8>)> = t.rows.iter().collect();
+    if insertion_rev {
+        rows.reverse();
+    }
+    for (arms, syms) in rows {
+        let key: IntT = match IntT::try_from(model::pack_arms(arms)) {
+            Ok(v) => v,
+            Err(_) => return Err("k-mer does not fit the integer width".to_string()),
+        };
+        hm.insert(key, syms.clone());
+    }
+    let mut d = MergeSkaDict::<IntT>::new(k, t.names.len(), rc);
+    d.build_from_array(&mut names, &mut hm);
+    Ok(MergeSkaArray::new(&d))
+}
+
+/// A generated symbol table: rows of symbols, arms derived from the row index
+#[derive(Clone, Debug, serde::Serialize, serde::Deserialize)]
+pub struct TableCase {
+    pub k: usize,
+    pub rc: bool,
+    pub n: usize,
+    /// each row is padded/truncated to n symbols cyclically
+    pub rows: Vec<Vec<u8>>,
+    /// spread of k-mer integers
+    pub stride: u16,
+}
+
+impl TableCase {
+    pub fn table(&self) -> Table {
+        let n = self.n.max(1);
+        let names = sample_names(n, "t");
+        let mut rows = std::collections::BTreeMap::new();
+        let space: u128 = if self.k >= 33 { u128::MAX >> 2 } else { 1u128 << (2 * (self.k - 1)) };
+        let stride = (self.stride as u128 * 2 + 1) % space;
+        for (i, r) in self.rows.iter().enumerate() {
+            let mut v: Vec<u8> = (0..n).map(|j| if r.is_empty() { b'-' } else { r[j % r.len()] }).collect();
+            if v.iter().all(|b| *b == b'-') {
+                v[i % n] = [b'A', b'C', b'G', b'T'][i % 4];
+            }
+            let x = if self.k >= 33 {
+                // use the high bits too
+                ((i as u128 + 1) * stride) ^ ((i as u128 + 1) << (2 * (self.k - 1) - 20))
+            } else {
+                ((i as u128 + 1) * stride) % space
+            };
+            let arms = model::unpack_arms(x % (1u128 << (2 * (self.k - 1)).min(127)), self.k);
+            rows.entry(arms).or_insert(v);
+        }
+        Table { names, rows }
+    }
+}
+
+pub fn table_case_strategy(max_samples: usize, max_rows: usize, allow_ambig: bool) -> proptest::strategy::BoxedStrategy<TableCase> {
+    use proptest::prelude::*;
+    let ks = prop::sample::select(vec![5usize, 7, 17, 31, 33, 63]);
+    (ks, any::<bool>(), 1..=max_samples, 0u32..60, 0u32..50, any::<u16>())
+        .prop_flat_map(move |(k, rc, n, pgap, pamb, stride)| {
+            let sym = if allow_ambig {
+                crate::gen::symbol_strategy(pgap, pamb)
+            } else {
+                prop_oneof![
+                    (100 - pgap).max(1) => prop::sample::select(vec![b'A', b'C', b'G', b'T']),
+                    pgap.max(1) => Just(b'-'),
+                ]
+                .boxed()
+            };
+            // rows: some fully random, some constant, some constant-plus-gap
+            let row = prop_oneof![
+                6 => proptest::collection::vec(sym.clone(), n..=n),
+                1 => (sym.clone()).prop_map(move |s| vec![s; n]),
+                2 => (sym.clone(), proptest::collection::vec(any::<bool>(), n..=n)).prop_map(|(s, m)| m.iter().map(|g| if *g { b'-' } else { s }).collect()),
+            ];
+            (Just(k), Just(rc), Just(n), proptest::collection::vec(row, 1..=max_rows), Just(stride))
+        })
+        .prop_map(|(k, rc, n, rows, stride)| TableCase { k, rc, n, rows, stride })
+        .boxed()
+}
+
+/// min-freq selector whose threshold is immune to floating point noise
+#[derive(Clone, Copy, Debug, serde::Serialize, serde::Deserialize, PartialEq)]
+pub enum Freq {
+    Zero,
+    One,
+    /// (j - 0.5)/n with j = 1 + idx(sel, n)
+    Half(u16),
+    /// m/8, m in 1..8
+    Dyadic(u8),
+}
+
+impl Freq {
+    pub fn value(&self, n: usize) -> f64 {
+        match self {
+            Freq::Zero => 0.0,
+            Freq::One => 1.0,
+            Freq::Half(s) => ((1 + crate::gen::idx(*s, n)) as f64 - 0.5) / n as f64,
+            Freq::Dyadic(m) => (*m as f64) / 8.0,
+        }
+    }
+    /// ceil(f*n)
+    pub fn ceil(&self, n: usize) -> usize {
+        match self {
+            Freq::Zero => 0,
+            Freq::One => n,
+            Freq::Half(s) => 1 + crate::gen::idx(*s, n),
+            Freq::Dyadic(m) => (n * (*m as usize) + 7) / 8,
+        }
+    }
+    /// is f*n an exact integer (then floor == ceil, needed for `ska weed`)
+    pub fn exact(&self, n: usize) -> bool {
+        match self {
+            Freq::Zero | Freq::One => true,
+            Freq::Half(_) => false,
+            Freq::Dyadic(m) => (n * (*m as usize)) % 8 == 0,
+        }
+    }
+    pub fn arg(&self, n: usize) -> String {
+        format!("{}", self.value(n))
+    }
+}
+
+pub fn freq_strategy() -> proptest::strategy::BoxedStrategy<Freq> {
+    use proptest::prelude::*;
+    prop_oneof![
+        2 => Just(Freq::Zero),
+        2 => Just(Freq::One),
+        5 => any::<u16>().prop_map(Freq::Half),
+        3 => (1u8..8).prop_map(Freq::Dyadic),
+    ]
+    .boxed()
+}
